@@ -303,7 +303,7 @@ class VG:
         if self.dead:
             return unk('dead')
         if 'expr' in b:
-            return self.value(b['expr'], fr)
+            return self.value_noderef(b['expr'], fr)
         return ('unit',)
 
     def stmt(self, s, fr):
@@ -368,7 +368,21 @@ class VG:
                 return TRUE
             return op('or', *alts)
         if k == 'plit':
-            return op('eq', v, lit(p['lit'], 'x'))
+            if p.get('lit') == 'int':
+                val = int(p['v'])
+                return op('eq', v, lit(-val if p.get('negated') else val, 'i'))
+            if p.get('lit') == 'bool':
+                return v if p['v'] else neg_cond(v)
+            if p.get('lit') == 'float':
+                val = float(p['v'])
+                return op('eq', v, lit(-val if p.get('negated') else val, 'f'))
+            return op('eq', v, lit(str(p.get('v')), 'x'))
+        if k == 'ppath':
+            name = canon(p['path']['def'])
+            if name.startswith('std::cmp::Ordering::') and isinstance(v, tuple) and v[0] == 'op' and v[1] == 'partial_cmp':
+                a, b = v[2]
+                return op({'Greater': 'gt', 'Less': 'lt', 'Equal': 'eq'}[name.split('::')[-1]], a, b)
+            return op('eq', v, ('const', name))
         return unk('pattern-cond')
 
     def tuple_elem(self, v, i):
@@ -1063,6 +1077,9 @@ class VG:
                     return ('ref', ('payload', o[1]))
                 if isinstance(o, tuple) and o and o[0] == 'ref':
                     o = self.deref(o)
+                if isinstance(o, tuple) and o and o[0] == 'op' and o[1] == 'partial_cmp':
+                    self.event('unwrap_cmp', (o,), e)
+                    return o
                 self.event('unwrap', (o,), e)
                 p = payload(o)
                 return p
